@@ -96,6 +96,25 @@ fn main() {
     sink.merge(struct_sweep(&run, &[&SIGNED_OLD], &sig_new, 0, &sfx, 48, &no_extra));
     sink.merge(struct_sweep(&run, &[&SIGNED], &sig_old, 0, &sfx, 48, &no_extra));
 
+    // the 65535-byte boundary sizes also in the quick tier (single deviations, sparse cuts)
+    if !thorough {
+        let big_dh: Vec<W> = cat::dh_params(true).into_iter().filter(|w| w.buf.len() > 60000).step_by(3).collect();
+        sink.merge(struct_sweep(&run, &[&DH_PARAMS], &big_dh, 1, &sfx, 24, &no_extra));
+        let big_sn: Vec<W> = cat::signatures(true, true).into_iter().filter(|w| w.buf.len() > 60000).collect();
+        let big_so: Vec<W> = cat::signatures(false, true).into_iter().filter(|w| w.buf.len() > 60000).collect();
+        sink.merge(struct_sweep(&run, &[&SIGNED], &big_sn, 1, &sfx, 24, &no_extra));
+        sink.merge(struct_sweep(&run, &[&SIGNED_OLD], &big_so, 1, &sfx, 24, &no_extra));
+    }
+    // the same structures with other opaque contents (all zero, 00 ff.., leading zero before a high bit, all ff, 80 00..)
+    for style in [1u8, 2, 3, 4, 5] {
+        use vcommon::en::with_fill_style as wfs;
+        sink.merge(struct_sweep(&run, &[&DH_PARAMS], &wfs(style, || cat::dh_params(false)), run.tier.pick(0, 1), &sfx, 48, &no_extra));
+        sink.merge(struct_sweep(&run, &[&ECDH_PARAMS, &EC_PARAMETERS], &wfs(style, cat::ecdh_params), run.tier.pick(0, 1), &sfx, 48, &no_extra));
+        sink.merge(struct_sweep(&run, &[&EC_POINT], &wfs(style, cat::ec_points), 0, &sfx, 32, &no_extra));
+        sink.merge(struct_sweep(&run, &[&SIGNED], &wfs(style, || cat::signatures(true, false)), run.tier.pick(0, 1), &sfx, 48, &no_extra));
+        sink.merge(struct_sweep(&run, &[&SIGNED_OLD], &wfs(style, || cat::signatures(false, false)), run.tier.pick(0, 1), &sfx, 48, &no_extra));
+    }
+
     // content + signature, both flag values, both signature encodings
     let mut pairs_dh = Vec::new();
     for c in dh.iter().step_by(3) {
@@ -166,7 +185,7 @@ fn main() {
     cov.insert("catalogue_sizes(dh,ec,ecdh,points,signatures)".into(), json!(format!("{:?}", sizes)));
     cov.insert("content_signature_pairs".into(), json!(npairs));
     cov.insert("rule".into(), json!(format!(
-        "struct: DH parameters (field sizes {{0,1,2,255,256{}}}^3), EC parameters (6 named groups, 5 explicit-prime shapes, 4 unsupported curve types), ECDH parameters, all 256 EC point lengths, both DigitallySigned forms x every combination of <= {} deviations; content+signature pairs through parse_content_and_signature with 3 content parsers x both flag values x both signature encodings; complete sweeps of all 65536 named groups, all 256 curve types, all 65536 (hash, signature) algorithm pairs; every string of length <= {} over a 6-letter alphabet on each of the 12 entry points. Oracle: strict walkers (exact values with slice positions, exact consumption). Non-trivial: every case",
+        "struct: DH parameters (field sizes {{0,1,2,255,256{}}}^3), EC parameters (6 named groups, 5 explicit-prime shapes, 4 unsupported curve types), ECDH parameters, all 256 EC point lengths, both DigitallySigned forms x every combination of <= {} deviations, and again with 5 other opaque-content patterns (all zero, 00 ff.., 00 80 ff 7f.., all ff, 80 00..); content+signature pairs through parse_content_and_signature with 3 content parsers x both flag values x both signature encodings; complete sweeps of all 65536 named groups, all 256 curve types, all 65536 (hash, signature) algorithm pairs; every string of length <= {} over a 6-letter alphabet on each of the 12 entry points. Oracle: strict walkers (exact values with slice positions, exact consumption). Non-trivial: every case",
         if thorough { ",65535" } else { "" }, d, n)));
     let code = run.finish(&sink, cov, vec!["strict walkers per DESIGN appendix D (all structures self-delimiting, a cut field is a rejection)".into()]);
     std::process::exit(code);
